@@ -463,7 +463,7 @@ def gen_case(rng, op=None, backend=None):
         sh = shapes(nd)
         form = rng.choice(["aa", "aa", "as", "sa"])
         if nd == 0:
-            form = "aa" if xr_ or rng.random() < 0.5 else form
+            form = "aa"
         blo, bhi = lo, hi
         alo, ahi = lo, hi
         if op == "pow":
@@ -532,8 +532,13 @@ def nontrivial(case):
 
 def derived(case):
     """the batched variants of a case: every cut into >= 2 consecutive batches"""
-    if case["op"] not in REDUCTIONS + ["concat"] or len(case["args"]) < 2:
+    if case["op"] not in VARIADIC or len(case["args"]) < 2:
         return []
+    if case["op"] == "stack":
+        # not batchable (c15_stack_not_batchable): cut it only if the source marks it (oracle only)
+        from earthkit.workflows import backends
+        if not getattr(backends.stack, "batchable", False):
+            return []
     out = []
     for sizes in compositions(len(case["args"])):
         c = dict(case)
@@ -599,8 +604,26 @@ def _neighbours(case):
         yield c
 
 
+def _flat(a):
+    return [v for x in a for v in _flat(x)] if isinstance(a, list) else [a]
+
+
+def _in_domain(c, orig):
+    """shrinking must not leave the domain of the generator (no zero divisor, no new negative exponent)"""
+    for key in ("args", "args2"):
+        if not c.get(key):
+            continue
+        if c["op"] == "divide" and 0 in _flat(c[key][1]):
+            return False
+        if c["op"] == "pow" and min(_flat(c[key][1])) < min(0, min(_flat(orig[key][1]))):
+            return False
+    return True
+
+
 def shrink(case, sig, budget=300):
     def fails(c):
+        if not _in_domain(c, case):
+            return False
         st, val = run_impl(c)
         f = oracle(c, st, val)
         return f is not None and f[0] == sig
@@ -721,7 +744,7 @@ def _evaluate(ctx, cases, with_model):
     from ekw.core import lean_drive
     lines, index = [], []
     for c, st, val in work:
-        if c.get("batches") and c["op"] == "std":
+        if c.get("batches") and c["op"] in ("std", "stack"):
             continue        # std is printed as its radicand: std-of-stds is not expressible; var covers the composition
         ls = model_lines(c)
         index.append((c, st, val, len(lines), len(ls)))
@@ -745,12 +768,12 @@ def _evaluate(ctx, cases, with_model):
 
 
 def correspond(ctx):
-    n = ctx.budget(1800, 12000)
+    n = ctx.budget(900, 12000)
     _evaluate(ctx, _cases(ctx, n), with_model=True)
 
 
 def oracle_only(ctx):
-    n = ctx.budget(1800, 12000)
+    n = ctx.budget(900, 12000)
     _evaluate(ctx, _cases(ctx, n), with_model=False)
 
 
